@@ -137,6 +137,8 @@ func randomConcOps(r *rand.Rand, init concState, n int) [][]string {
 	return ops
 }
 
+var stuckOnce bool
+
 func runConcRound(tw *traceWriter, r *rand.Rand, round int, servers, nops int) {
 	router := pick(r, []string{"curly", "jsr311"})
 	init := concState{services: []*regService{{root: "/a", routes: []string{"", "/x", "/{p}"}}, {root: "/b", routes: []string{"", "/x", "/{p}"}}}}
@@ -245,6 +247,7 @@ func runConcRound(tw *traceWriter, r *rand.Rand, round int, servers, nops int) {
 	case <-fin:
 	case <-time.After(30 * time.Second):
 		tw.emit(map[string]interface{}{"e": "cstuck", "round": round})
+		stuckOnce = true // goroutines of this round are lost: no further rounds in this process
 		return
 	}
 	if mutPanic != "" {
@@ -417,6 +420,7 @@ func runConcDuo(tw *traceWriter, r *rand.Rand, round, servers int) {
 	case <-fin:
 	case <-time.After(30 * time.Second):
 		tw.emit(map[string]interface{}{"e": "cstuck", "round": round})
+		stuckOnce = true // goroutines of this round are lost: no further rounds in this process
 		return
 	}
 	for _, pv := range panics {
@@ -505,10 +509,10 @@ func runConc(planPath, outPath string, seed int64) {
 	if p.Ops == 0 {
 		p.Ops = 12
 	}
-	for i := 0; i < p.Rounds; i++ {
+	for i := 0; i < p.Rounds && !stuckOnce; i++ {
 		runConcRound(tw, r, i, p.Servers, p.Ops)
 	}
-	for i := 0; i < p.Duo; i++ {
+	for i := 0; i < p.Duo && !stuckOnce; i++ {
 		runConcDuo(tw, r, 1000+i, p.Servers)
 	}
 	_ = fmt.Sprint
